@@ -5,7 +5,7 @@
    and ".." are refused by remove_all; a missing final name is refused.  That the
    parent descriptor itself lies inside the root under attack is C02's statement;
    the snapshot oracle of tools/props/C03.py judges the real effects. *)
-From PV Require Import Discipline ProgTac PathProofs DisciplineProofs OpathDisc RootDisc OpsProofs.
+From PV Require Import Discipline ProgTac PathProofs DisciplineProofs OpathDisc RootDisc OpsProofs FaultProofs EffectProofs Replay MonitorProofs.
 Open Scope N_scope.
 
 Theorem C03_single_entry_ops :
@@ -21,6 +21,48 @@ Proof.
   intros. repeat split; eapply okp_all_calls;
     [apply root_create_ok|apply root_create_file_ok|apply root_remove_inode_ok
     |apply root_rename_ok|apply root_remove_all_ok|apply root_mkdir_all_ok]; assumption.
+Qed.
+
+(* how many calls that change the tree ([eff]: mkdirat, mknodat, unlinkat, linkat, symlinkat,
+   renameat(2), open with O_CREAT) can be issued, for all answers and on either backend:
+   lookups -- the emulated walk with all its procfs round-trips, even when a fresh procfs handle
+   has to be made on the way, and the openat2 retry loops -- issue none ... *)
+Theorem C03_lookups_change_nothing :
+  forall fz cfg pfuel gh ps rs root path nf,
+    calls_le eff 0 (r_resolve fz cfg pfuel gh ps rs root path nf) /\
+    calls_le eff 0 (r_resolve_partial fz cfg pfuel gh ps rs root path nf) /\
+    calls_le eff 0 (parent_and_name fz cfg pfuel gh ps rs root path).
+Proof. intros. repeat split; [apply r_resolve_ne|apply r_resolve_partial_ne|apply parent_and_name_ne]. Qed.
+
+(* ... and every single-entry operation issues at most one *)
+Theorem C03_at_most_one_effect :
+  forall fz cfg pfuel gh ps rs root path path2 ty flags mode isdir rflags,
+    calls_le eff 1 (root_create fz cfg pfuel gh ps rs root path ty) /\
+    calls_le eff 1 (root_create_file fz cfg pfuel gh ps rs root path flags mode) /\
+    calls_le eff 1 (root_remove_inode fz cfg pfuel gh ps rs root path isdir) /\
+    calls_le eff 1 (root_rename fz cfg pfuel gh ps rs root path path2 rflags).
+Proof.
+  intros. repeat split; [apply root_create_one|apply root_create_file_one|apply root_remove_inode_one|apply root_rename_one].
+Qed.
+
+(* the count as a monitor over recorded traces (tools/props/C14.py evaluates [trace_effects] on the
+   traces of the running library): a trace the model program accepts contains no more tree-changing
+   calls than the bound proved for the program *)
+Theorem C03_effect_count_sound :
+  forall A (p : prog A) n t idx a m,
+    calls_le eff n p -> run_trace p t idx = RDone a m -> (trace_count eff t <= n)%nat.
+Proof. intros. eapply calls_le_sound; eassumption. Qed.
+
+Example C03_eff_examples :
+  eff (Mkdirat 5 (b "x") 493) = true /\ eff (Openat 5 (b "x") (N.lor O_WRONLY O_CREAT) 420) = true /\
+  eff (Openat 5 (b "x") (N.lor O_PATH O_NOFOLLOW) 0) = false /\ eff (Fstatat 5 (b "x") 256) = false /\
+  ~ calls_le eff 0 (Call (Unlinkat 5 (b "x") 0) (fun _ => Ret tt)) /\
+  ~ calls_le eff 1 (Call (Unlinkat 5 (b "x") 0) (fun _ => Call (Mkdirat 5 (b "x") 493) (fun _ => Ret tt))).
+Proof.
+  repeat split; try reflexivity.
+  - intro H. inversion H as [| |? ? ? E| |]; subst. discriminate.
+  - intro H. inversion H as [|n c k E Hk|? ? ? E| |]; subst; [|discriminate].
+    specialize (Hk RUnit). inversion Hk as [| |? ? ? E2| |]; subst. discriminate.
 Qed.
 
 Theorem C03_dots_refused :
@@ -39,3 +81,6 @@ Proof. intros. apply no_name_refused. assumption. Qed.
 Print Assumptions C03_single_entry_ops.
 Print Assumptions C03_dots_refused.
 Print Assumptions C03_no_name_refused.
+Print Assumptions C03_lookups_change_nothing.
+Print Assumptions C03_at_most_one_effect.
+Print Assumptions C03_effect_count_sound.
